@@ -36,7 +36,8 @@ func (c *Encoder) Encodes(statements []ast.Statement) ([]byte, error) {
 		buf.Write(frame.Encode())
 	}
 	buf.Write(fin())
-	return buf.Bytes(), nil
+	// The buffer goes back to the pool: hand out a copy, not a slice of its memory
+	return append([]byte(nil), buf.Bytes()...), nil
 }
 
 func (c *Encoder) Encode(stmt ast.Statement) ([]byte, error) {
